@@ -298,8 +298,7 @@ def discoverField (incRex : Bool) (rexOf : List Val → List Nat) (c : Column) (
   else
     let typeC := [Constraint.type (some [c.ftype])]
     if nrec == 0 then
-      if c.ftype == .string && incRex then .error .unboundLocal
-      else .ok (some typeC)
+      .ok (some (typeC ++ (if c.ftype == .string && incRex then [Constraint.rex (some (rexOf []))] else [])))
     else
       let nNull := calcNullCount c
       let nNonNull := calcNonNullCount c
@@ -382,7 +381,7 @@ def detectFlags (cfg : Cfg) (c : Column) : Constraint → Option (List (Option B
     if c.ftype != .string then some (constFlags c false)
     else some (detField c.cells none (fun x => match x with | .s t => (t.length : Int) ≤ n | _ => false))
   | .sign (some s) =>
-    if !(c.ftype == .bool || c.ftype == .int || c.ftype == .real) then none
+    if !(c.ftype == .bool || c.ftype == .int || c.ftype == .real) then some (constFlags c false)
     else match s with
       | .null => some (constFlags c false)
       | .positive => some (detField c.cells none (fun x => match x.num with | some q => q > 0 | none => false))
